@@ -2,7 +2,9 @@
 //
 // Deviation-bounded exhaustive enumeration of small tables (rows x cells, colspan/rowspan
 // symbols incl. rowspan=0, an overflowing colspan and absent cells, row groups, caption,
-// col/colgroup, contents, width / table-layout / border-spacing / border-collapse values),
+// col/colgroup, contents, width / table-layout / border-spacing / border-collapse values, the
+// direction of the table, a percentage cell padding, sized columns that nearly fill the table,
+// a table laid out at a negative y),
 // each laid out by the real pipeline (render.Layout); the relational invariants of the
 // property statement are evaluated on every laid-out table against a reference slot model
 // (HTML "forming a table" / CSS 2.1 §17.5).
@@ -244,7 +246,7 @@ func (c *check) Init(tier string, seed int64) engine.Space {
 	c.batch = 32
 	core := []fullDim{{dWidth, []uint8{0, 1, 2, 3}}, {dLayout, []uint8{0, 1}}}
 	coreSp := append(append([]fullDim(nil), core...), fullDim{dSpacing, []uint8{0, 2}})
-	otherDims := []int{dSpacing, dBorder, dSection, dCaption, dCols, dContent, dCellW, dContainer}
+	otherDims := []int{dSpacing, dBorder, dSection, dCaption, dCols, dContent, dCellW, dContainer, dDir, dOffset}
 	// single deviations also include the vertical options and the split over pages
 	singleDims := append(append([]int(nil), otherDims...), dPageH, dRowH, dVAlign, dCellH)
 	// ---- tables split over pages (page height of one or two lines), pages of different geometry
@@ -273,6 +275,12 @@ func (c *check) Init(tier string, seed int64) engine.Space {
 		{2, 2, []uint8{5, 0, 0, 0}},
 		{2, 2, []uint8{0, 4, 0, 6}},
 	}
+	// ---- right-to-left tables: column 0 is the rightmost one; crossed with the spacing (columns in
+	// which no cell originates take none) and every span symbol
+	rtlFull := []fullDim{{dDir, []uint8{1}}, widths, layouts, spacings}
+	// ---- fixed layout, two sized columns (48% each) that nearly fill the specified width: what is
+	// left for the unsized columns is less than the spacing between the columns
+	fillFull := []fullDim{{dCols, []uint8{6}}, {dLayout, []uint8{1}}, {dWidth, []uint8{1, 2, 3}}, {dSpacing, []uint8{0, 1, 2}}, {dDir, []uint8{0, 1}}}
 	tieDims := []fullDim{{dWidth, []uint8{0, 1, 2, 3}}, {dSpacing, []uint8{0, 1}}, {dContent, []uint8{0, 1, 2, 3, 4, 5, 6, 7}}, {dCellW, []uint8{0, 1, 2, 3, 4}}}
 	if tier == "thorough" {
 		sh33 := shapes(3, 3)
@@ -302,6 +310,8 @@ func (c *check) Init(tier string, seed int64) engine.Space {
 			{name: "heights: 2x2, 2x3, 3x1, 3x2 with <=2 span symbols of any kind, one spanning rows x row height{auto,last 5px,all 15px} x content{rot0,tall multi-row} x spacing{0,2px 4px}", structs: withRowSpan(structSet([][2]int{{2, 2}, {2, 3}, {3, 1}, {3, 2}}, 2)),
 				full: []fullDim{{dRowH, []uint8{0, 1, 3}}, {dContent, []uint8{0, 8}}, spacings}},
 			{name: "split over pages of one or two lines, row groups: 3x1, 3x2, 4x1 with <=2 row-spanning symbols, 4x2 with 1, x section x content{rot0,tall} x spacing{0,2px 4px} x cell height{auto,first 30px}", structs: withRowSpan(append(structMenu([][2]int{{3, 1}, {3, 2}, {4, 1}}, 2, rowSpans), structMenu([][2]int{{4, 2}}, 1, rowSpans)...)), full: splitSpanFull},
+			{name: "right-to-left: tables <=3x3 with <=2 span symbols, 4-row tables with <=1, x width x layout x spacing{0,2px 4px}", structs: append(structSet(sh33, 2), structSet(sh4, 1)...), full: rtlFull},
+			{name: "fixed layout, two columns of 48% and unsized ones: tables <=3x3 with <=2 span symbols x width{50px,150px,100%} x spacing x direction", structs: structSet(sh33, 2), full: fillFull},
 		}
 	} else {
 		upto6 := [][2]int{{1, 1}, {1, 2}, {2, 1}, {1, 3}, {3, 1}, {2, 2}, {2, 3}, {3, 2}}
@@ -315,6 +325,8 @@ func (c *check) Init(tier string, seed int64) engine.Space {
 			{name: "split over pages of one or two lines, first page with a margin: 2x2, 3x1, 3x2 with <=1 span symbol of {colspan, rowspan, rowspan=0, absent} x width{auto,100%} x 1 option deviation", structs: structMenu([][2]int{{2, 2}, {3, 1}, {3, 2}}, 1, spanLite), full: splitDevFull, devs: levels(splitDevDims, 1, 1)},
 			{name: "heights: tables with a cell spanning rows (2x1, 2x2, 3x1 with <=2 row-spanning symbols, 3x2, 4x1, 4x2 with 1) x row height x tall content x spacing{0,2px 4px} x vertical-align{baseline,middle}", structs: withRowSpan(append(structMenu([][2]int{{2, 1}, {2, 2}, {3, 1}}, 2, rowSpans), structMenu([][2]int{{3, 2}, {4, 1}, {4, 2}}, 1, rowSpans)...)), full: heightFull},
 			{name: "split over pages of one or two lines, row groups: 3x1, 3x2 with one cell spanning rows (rowspan 2 or 0) x section x content{rot0,tall} x spacing{0,2px 4px} x cell height{auto,first 30px}", structs: withRowSpan(structMenu([][2]int{{3, 1}, {3, 2}}, 1, []uint8{2, 4})), full: splitSpanFull},
+			{name: "right-to-left: tables of <=6 cells with <=1 span symbol x width x layout x spacing{0,2px 4px}", structs: structSet(upto6, 1), full: rtlFull},
+			{name: "fixed layout, two columns of 48% and unsized ones: 1x3, 2x2, 2x3 with <=1 span symbol x width{50px,150px,100%} x spacing x direction", structs: structSet([][2]int{{1, 3}, {2, 2}, {2, 3}}, 1), full: fillFull},
 		}
 	}
 	if only := os.Getenv("C13_ONLY"); only != "" { // development aid: explore some families only
@@ -368,7 +380,8 @@ func (c *check) Init(tier string, seed int64) engine.Space {
 			"page": "container width x page height (1000px: one page; 15px / 25px: the table is split), font 10px/1 Ahem",
 		},
 		Assumptions: []string{
-			"LTR tables only; no nested tables",
+			"no nested tables; a right-to-left table (direction:rtl on the table) is checked as the mirror image of the left-to-right one: column 0 is the rightmost column",
+			"a table laid out at a negative y (margin-top:-100px, one page): clause position-independent compares its used widths and heights (table, columns, rows) with those of the same table laid out at y=0 (the statement's row height 'after rowspan resolution' is a function of the table alone); not crossed with the split over pages, where the room left on the page legitimately differs",
 			"tables split over pages (page height 15px / 25px): every fragment is checked as a laid-out table, its rows identified by the id of their <tr>; a header or footer group, a row or the caption that the pagination drops is not a matter of this property; the bottom edge of a cell whose spanned rows continue on the next page is not checked (the statement does not say how such a cell is fragmented; counted as spans-cut-by-a-page-break), it must still not overlap the cells of disjoint slots",
 			"page geometry: the first page is a right page; the containing block of the table on page p is computed from the @page rules (only its width matters: width:100%)",
 			"cell text is Ahem 10px, so min-content widths are exact multiples of 10px",
@@ -470,6 +483,25 @@ func (c *check) runCase(d *doc, ctx *engine.Ctx) {
 				return
 			}
 			out = verify(d, g, t, 0, nil, rp)
+			if d.opt[dOffset] != 0 {
+				// the same table laid out at y=0: same used widths and heights
+				base := *d
+				base.opt[dOffset] = 0
+				rp.count("tables-compared-with-their-layout-at-y=0", 1)
+				bp, err := render.Layout(render.Options{HTML: base.html(), Engine: "pango", PageBound: bound})
+				var bt *bo.TableBox
+				if err == nil && len(bp) > 0 {
+					bt = findTable(bp[0])
+				}
+				if bt == nil {
+					rp.fail("position-independent", "the same table without the negative margin gives no table box")
+					return
+				}
+				silent := reporter{fail: func(string, string) {}, count: func(string, int64) {}}
+				if ref := verify(&base, g, bt, 0, nil, silent); ref.key != out.key {
+					rp.fail("position-independent", fmt.Sprintf("laid out at y=%g: %s; the same table laid out at y=%g: %s (W H = used width and height of the table, C = column widths, R = row heights)", float64(t.PositionY), out.key, float64(bt.PositionY), ref.key))
+				}
+			}
 			return
 		}
 		// the table is split: every fragment is a laid-out table
